@@ -908,6 +908,7 @@ func runC11(c *fw.Ctx) {
 		c11PackDrivers(c, r)
 	}
 
+	c11DeepChains(c)
 	// the smaller passes run before the big product, so that a short time budget cuts the product, not them
 	for _, r := range repos {
 		pc := c11ProductCfgs(c, r, cfgs)
